@@ -35,5 +35,21 @@ CHECKS = {
     text='Postcondition monitor on the real compute_increments_from_imu against exact per-interval rotation vectors and start-frame velocity integrals (DOP853 at rtol 1e-13), over a ten-rung halving ladder; verdict = least-squares order on the finest usable rungs (>= 3.5 linear signals incl. the documented neglected term, >= 2.5 sinusoids) plus structural postconditions (rows, stamps, dt bitwise).',
     ref='2/C15', technique='runtime postcondition vs exact reference integrals on an interval-halving ladder',
     note='Order of accuracy is a limit statement restated as a bounded ladder; reference floor measured at rounding level.'),
+ 'C02': dict(
+    text='Random call histories (integrate chunks incl. empty, predict, get_pva/get_time, set_pva) on the real Integrator with initial capacities 2..64 under: an executable model (fresh integrator, single integrate call) compared bitwise after every integrate, predict / return-value / time-index postconditions, a class invariant after every public method, a kernel-boundary contract on the compiled integrate, stale-return checks, and the same driver re-run in the NUMBA_BOUNDSCHECK=1 build of the kernel (the sanitizer build).',
+    ref='2/C02', technique='history + executable model (bitwise), class invariant, kernel-boundary contract, bounds-checking build',
+    note='A clean bounds-check run is no out-of-range access on these histories, not memory safety; Euler extraction assumed batch-length independent (probed each run).'),
+ 'C09': dict(
+    text='Each case runs the real run_feedback_filter on a seeded IMU/measurement schedule under a boundary event recorder (integrate/predict/set_pva, compute_matrices hit/miss, correct, update_estimates) and a sys.monitoring loop monitor (bounded progress in while-header visits, cursor locals read from the frame); the history is checked offline for exactly-once integration of increments, exactly-once processing and stamping of samples in [start, end), table index/finite rules and cursor monotonicity.',
+    ref='2/C09', technique='offline exactly-once/conservation checker over recorded event histories + loop-budget monitor',
+    note='Termination restated as bounded progress in logical steps; wall-clock watchdog only yields inconclusive.'),
+ 'C10': dict(
+    text='Each case runs the real run_feedforward_filter on a seeded schedule (sampling uniform/jittered/gapped, time_step below/equal/above the sampling gap, with/without increments) under the event recorder and loop monitor; offline checker: grid strictly increasing subset starting at the first time, step <= max(time_step, local gap), every sample in [start, end) used exactly once in order, all tables finite.',
+    ref='2/C10', technique='offline exactly-once checker over recorded event histories + loop-budget monitor',
+    note='Termination restated as bounded progress in logical steps.'),
+ 'C13': dict(
+    text='Trace monitors with a shadow variable (altitude most recently supplied): 2-D integrator histories with large vertical specific force and non-zero supplied VD (every returned row VD == 0 and alt == alt_ref bitwise, plus all C02 monitors), and real 2-D runs of both filters on seeded schedules (alt_ref follows the recorded set_pva events; down/VD standard deviations exactly zero; position / NED-velocity models return two rows).',
+    ref='2/C13', technique='trace monitor with shadow state over call histories and filter runs',
+    note='Zero means == 0.0; altitude equality bitwise.'),
 }
 PENDING = {}
